@@ -25,6 +25,13 @@ def gen_case(rng, tdir):
             src = gen.line_sequence(rng)                                # "document ends right after <line kind>", with and without final EOL
         elif q < 0.215:
             src = gen.repeated_blocks(rng)[1]                           # per-document counters and limits
+        elif q < 0.245:
+            # formats that collect assets copy image / css destinations into scratch buffers of their own: boundary lengths, in those formats
+            n = rng.choice([99, 100, 127, 128, 255, 256, 257, 500, 507, 508, 509, 511, 512, 513, 600, 800, 990, 994, 995, 996, 998, 999, 1000, 1001, 1023, 1024, 1100, 2047, 2048, 4096])
+            u = b'u' * max(1, n - 4) + b'.png'
+            src = rng.choice([b'![alt](%s)\n', b'![alt](%s "title")\n', b'text ![a](%s) and ![b](%s)\n' if False else b'text ![a](%s) more\n', b'![r][i]\n\n[i]: %s\n', b'![r][i]\n\n[i]: %s "t" width=40px\n',
+                              b'css: %s\n\nbody\n', b'![alt](<%s>)\n', b'[![alt](%s)](http://e.x/)\n']) % u
+            fmt = rng.choice([1, 6, 7, 8, 12])
         else:
             src = gen.gen_bytes(rng)
         family = rng.randrange(3)
